@@ -153,7 +153,10 @@ func recvName(fd *ast.FuncDecl) string {
 }
 
 // analyse regenerates the skeletons of every function in scope from the source under repo.
-func analyse(repo string) (*analysis, error) {
+func analyse(repo string) (*analysis, error) { return analyseScope(repo, scope, allowText) }
+
+// analyseScope is analyse for an arbitrary set of packages / files and allow list.
+func analyseScope(repo string, scope map[string]func(file string) bool, allowText string) (*analysis, error) {
 	al, err := parseAllow(allowText)
 	if err != nil {
 		return nil, err
